@@ -120,6 +120,7 @@ package ledger
 //@   at Batch.Write assert meta_goes_with_the_blocks: recv == batchWrite && batchWrite == l.confirmBatch && sel(sel(batchOp, ifacePtr(recv)), xldgpb.MetaTablePrefix) == 1
 //@   ensures one_atomic_write: kvWrites <= old(kvWrites) + 1 && kvDirect == old(kvDirect)
 //@   at fieldwrite.meta assert [C05] memory_follows_the_disk: kvErr == nil && $1 == newMeta
+//@   at LRUCache.Keys assert [C05] failed_confirmation_drops_every_cached_header: !confirmStatus.Succ && recv == l.blkHeaderCache
 //@   at LRUCache.Add assert [C05] only_confirmed_blocks_are_cached: recv == l.blockCache ==> confirmStatus.Succ
 //@   at fieldwrite.meta assert [C04] tip_stays_or_moves_to_the_new_block: !isRoot ==> (newMeta.TipBlockid == block.Blockid || newMeta.TipBlockid == l.meta.TipBlockid) && newMeta.TrunkHeight >= l.meta.TrunkHeight && (newMeta.TipBlockid != l.meta.TipBlockid ==> newMeta.TrunkHeight > l.meta.TrunkHeight)
 //@   at Ledger.handleFork assert [C04] switch_only_to_a_strictly_higher_block: preBlock.Height + 1 > l.meta.TrunkHeight && newMeta.TrunkHeight == preBlock.Height + 1 && newMeta.TipBlockid == block.Blockid && (block != preBlock ==> block.Height == preBlock.Height + 1) && bytesEq($0, l.meta.TipBlockid) && bytesEq($1, preBlock.Blockid) && bytesEq($2, block.Blockid) && $3 == batchWrite
@@ -173,3 +174,15 @@ package ledger
 //@   property C04
 //@   ensures only_strictly_higher_tips: result1 == nil ==> (forall j int :: 0 <= j && j < len(result0) ==> (exists i int :: 0 <= i && i < kvLen(it) && result0[j] == recId(it, i) && recListed(it, i, targetBlockid, targetBlockHeight)))
 //@   loop 1 invariant listed_so_far: sel(kvPos, it) >= 0 - 1 && (forall j int :: 0 <= j && j < len(result) ==> (exists i int :: 0 <= i && i <= sel(kvPos, it) && i < kvLen(it) && result[j] == recId(it, i) && recListed(it, i, targetBlockid, targetBlockHeight)))
+
+// After a trunk switch every transaction of a block that joined the trunk is mapped to
+// that block: the block is read from STORAGE with its transactions (a cached copy may
+// carry block ids stamped by an earlier confirmation), and every record whose block id
+// differs is rewritten, in the caller's batch, with the joining block's id (C04).
+//@ func Ledger.correctTxsBlockid
+//@   property C04
+//@   local tx *xldgpb.Transaction
+//@   at Ledger.queryBlock assert reads_the_stored_block_with_its_transactions: bytesEq($0, blockID) && $1
+//@   at Batch.Put assert record_rewritten_with_the_joining_block: recv == batchWrite && str($0) == xldgpb.ConfirmedTablePrefix + str(tx.Txid) && tx.Blockid == blockID
+//@   ensures [C06] no_direct_writes: kvDirect == old(kvDirect) && kvWrites == old(kvWrites)
+//@   loop 1 invariant [C06] nothing_written_yet: kvDirect == old(kvDirect) && kvWrites == old(kvWrites)
